@@ -9,7 +9,7 @@ import subprocess
 
 from . import tlc, decfam, decio, decquery
 from . import chainio as cio
-from .c12 import flatten_universe, random_chain
+from .c12 import flatten_universe, random_chain, shaped_chain
 from .core import Outcome, ensure_repo_on_path, finish, pmap, Machinery, chunked
 
 PROP = "C15"
@@ -250,7 +250,7 @@ def run(tier, seed, replay_path=None):
             elif rng.random() < 0.7:
                 specs.append(("cls", rng.choice(chains)))
             else:
-                specs.append(("cls", random_chain(rng, 6)))
+                specs.append(("cls", random_chain(rng, 6) if rng.random() < 0.8 else shaped_chain(rng, rng.choice(["wide", "deep"]))))
         sessions_args = [(i, specs[i:i + 3], seed * 29 + i) for i in range(0, len(specs), 3)]
         sessions = pmap(build_session, sessions_args, chunk=4)
         sessions = [s for s in sessions if s["views"]]
